@@ -214,7 +214,11 @@ def evaluate(case: Dict[str, Any], base: Any, ctx: Any = None) -> List[Tuple[str
                     continue
                 except BaseException as e:  # noqa
                     cause = cause_of(e)
-                    if not cause.startswith("None-passed-to") and none_call_argument(inv.body, ref):
+                    import traceback as _tb
+
+                    inside_fn = any(fr.name in rm.fns for fr in _tb.extract_tb(e.__traceback__))
+                    if not cause.startswith("None-passed-to") and "NoneType" in str(e) and (
+                            inside_fn or none_call_argument(inv.body, ref)):
                         # the failure happens inside the called function, the root cause is the None argument
                         cause = "None-passed-to-call-argument"
                     fails.append((f"accepted-invariant-raises:{cause}",
